@@ -152,6 +152,33 @@ def build(ctx, case, db):
         ln += 10
     sel = "SELECTED_OUTPUT 1\n -reset false\n -state true\nUSER_PUNCH 1\n -headings " + " ".join(h.replace(" ", "_") for h in heads) + "\n -start\n" + "\n".join(prog) + "\n -end\n"
     text = "KNOBS\n -convergence_tolerance 1e-12\n -iterations 400\n" + sel + t + "END\nUSE solution 1\n" + blocks + react + "END\n"
+    # history: a second reaction step right after the first, with the same water, the same mineral list, targets and amounts and the same other reactants,
+    # in which only the one-sided restrictions are drawn again (the solver may reuse the model it built for the first step; the restrictions must still be the new ones)
+    if mins and r.random() < 0.5:
+        mins2 = []
+        for m, target, amt, restr in mins:
+            r2 = r.choice([None, None, "dissolve_only", "precipitate_only"]) if restr != "force_equality" else restr
+            a2 = amt
+            if r2 == "dissolve_only" and a2 == 0:
+                r2 = None
+            mins2.append((m, target, a2, r2))
+        b2 = "EQUILIBRIUM_PHASES 2\n"
+        for m, target, amt, restr in mins2:
+            if restr == "force_equality":
+                b2 += " %s %s %s\n -force_equality true\n" % (m, f(target), f(amt))
+            else:
+                b2 += " %s %s %s%s\n" % (m, f(target), f(amt), (" " + restr) if restr else "")
+        text += "USE solution 1\n" + b2
+        if "cec" in info:
+            text += "USE exchange 1\n"
+        if surf:
+            text += "USE surface 1\n"
+        if "ss" in info:
+            text += "USE solid_solutions 1\n"
+        if react:
+            text += "USE reaction 1\n"
+        text += "END\n"
+        info["mins2"] = mins2
     info.update(exsp=exsp, susp=susp)
     return text, info
 
@@ -187,16 +214,17 @@ def run_case(ctx, case):
         return Result(INCONCLUSIVE, reason="no reaction row")
     findings, sigs = [], set()
     nchk = 0
-    for d in rrows:
+    for ri, d in enumerate(rrows):
         kgw = d["kgw"]
-        for m, target, amt, restr in info["mins"]:
+        second = ri >= 1 and "mins2" in info
+        for m, target, amt, restr in (info["mins2"] if second else info["mins"]):
             n, si = d.get("equi:%s" % m), d.get("si:%s" % m)
             if n is None or si is None or si < -99:
                 continue
             nchk += 1
             present = n > 0
-            sigs.add("%s|%s|%s" % (m, "present" if present else "absent", restr or "-"))
-            tag = "%s (target %g, initial %g mol%s) at %.1f C in %s" % (m, target, amt, (", " + restr) if restr else "", info["temp"], case["id"])
+            sigs.add("%s|%s|%s%s" % (m, "present" if present else "absent", restr or "-", "|2nd-step" if second else ""))
+            tag = "%s (target %g, initial %g mol%s) at %.1f C in %s%s" % (m, target, amt, (", " + restr) if restr else "", info["temp"], case["id"], " (second step, restrictions re-drawn)" if second else "")
             if n < 0:
                 findings.append(("C03/negative-amount", "%s: EQUI = %.6e < 0" % (tag, n)))
             if restr == "dissolve_only":
